@@ -20,7 +20,7 @@ step.register_matrix(
     REG, "pres", "pres",
     "accepted iff not (t < start of latest run); afterwards has_interaction(u,v,q) (both orders if undirected) == present "
     "before or t<=q<=end of span; has_interaction(u,v) is True; bystander pair, reverse direction and unknown pairs unchanged",
-    quick=lambda key, n, L, by: L == 2 and (n <= 1 or (n == 2 and key == "u_swap")) and key != "d_same_by",
+    quick=lambda key, n, L, by: L == 2 and (n <= 1 or (n == 2 and key in ("u_swap", "d_same"))) and key != "d_same_by",
     split=lambda key, n, L, by: by and n >= 1,
     tags=lambda n: ["accepted", "q_new"] + (["rejected", "append", "extend", "contained"] if n else []), twins=2)
 
